@@ -55,12 +55,20 @@ def apply(Y, u, op):
     return getattr(u, name)(*a)
 
 
-def run(Y, prog, on_step=None):
+def _touch(u):
+    """read every accessor of an intermediate object (values memoised on it must not leak into what is derived from it)"""
+    from .observe import observe
+    observe(u)
+
+
+def run(Y, prog, on_step=None, touch=False):
     """Returns (url or None, trace); trace = list of ('ok', str) | ('rej', exc type) | ('exc', exc type)."""
     trace = []
     try:
         u = construct(Y, prog["ctor"])
         trace.append(("ok", None))
+        if touch:
+            _touch(u)
     except (ValueError, TypeError) as e:
         return None, [("rej", type(e).__name__)]
     except Exception as e:  # noqa: BLE001
@@ -76,6 +84,8 @@ def run(Y, prog, on_step=None):
             continue
         trace.append(("ok", None))
         u = u2
+        if touch:
+            _touch(u)
         if on_step:
             on_step(u, op)
     return u, trace
@@ -112,7 +122,8 @@ def op(txt, hosts=None, with_join=True):
         st.tuples(st.just("without_query_params"), st.lists(txt, max_size=2)),
         st.tuples(st.just("with_fragment"), st.one_of(st.none(), txt)),
         st.tuples(st.just("with_name"), seg, keep),
-        st.tuples(st.just("with_suffix"), st.one_of(st.just(""), seg.map(lambda s: "." + s)), keep),
+        st.tuples(st.just("with_suffix"), st.one_of(st.just(""), st.just(""), seg.map(lambda s: "." + s)), keep),
+        st.tuples(st.just("with_name"), st.sampled_from(["...bak", "..tmp", "..gz", ".a.b", "a..b", "x."]), keep),
         st.tuples(st.just("div"), txt.map(lambda s: s.lstrip("/"))),
         st.tuples(st.just("joinpath"), st.lists(txt.map(lambda s: s.lstrip("/")), min_size=1, max_size=3)),
         st.tuples(st.just("parent")),
